@@ -47,7 +47,7 @@ def random_case(prop, rng, tier):
         ids.add(t['id'])
     links = [[rng.randrange(n), rng.randrange(n)] for _ in range(rng.randrange(0, n + 2))]
     return {'tasks': tasks, 'links': links, 'title': rng.choice([None, 'My plan', 'T: x']), 'weekends': rng.random() < 0.5,
-            'tick': rng.choice([None, '1week', ''])}
+            'tick': rng.choice([None, '1week', '']), 'lateEdit': rng.random() < 0.25}
 
 
 def build(case):
@@ -84,6 +84,23 @@ def execute(prop, case):
     from pjplan import MermaidGantt, MermaidNetwork, DhtmlxGantt
     set_clock()
     w, objs = build(case)
+    renderers = None
+    if case.get('lateEdit'):
+        # the renderer objects exist before the plan is edited: they must show the plan as it is when it is rendered
+        from pjplan import Task
+        try:
+            renderers = (MermaidGantt(w, title=case['title'], weekends=case['weekends'], tick_interval=case['tick']), MermaidNetwork(w), DhtmlxGantt(w))
+        except Exception:  # noqa
+            renderers = None
+        objs[0].name = (objs[0].name or '') + ' (edited)'
+        objs[0].end = objs[0].end + timedelta(hours=1)
+        late = Task(9000 + len(objs), 'late addition', start=datetime(2024, 1, 20), end=datetime(2024, 1, 21, 12), estimate=2)
+        w // late
+        objs.append(late)
+        for r in reversed(list(w.roots)):
+            if r is not objs[0] and r is not late and not r.children and not r.predecessors and not r.successors:
+                w.remove(r)
+                break
     uid = {id(o): u for u, o in enumerate(objs)}
     members = list(w.tasks)
     f1 = lambda d: d.strftime('%d.%m.%Y %H:%M')
@@ -102,9 +119,12 @@ def execute(prop, case):
     rec['roots'] = [uid[id(r)] for r in w.roots]
     py = {}
     try:
-        g = MermaidGantt(w, title=case['title'], weekends=case['weekends'], tick_interval=case['tick'])
-        nw = MermaidNetwork(w)
-        dh = DhtmlxGantt(w)
+        if renderers is not None:
+            g, nw, dh = renderers
+        else:
+            g = MermaidGantt(w, title=case['title'], weekends=case['weekends'], tick_interval=case['tick'])
+            nw = MermaidNetwork(w)
+            dh = DhtmlxGantt(w)
         rec['obsGantt'] = g._MermaidGantt__src()
         rec['obsNetwork'] = nw._MermaidNetwork__src()
         classes = dh._DhtmlxGantt__task_classes()[1]
@@ -149,7 +169,7 @@ def judge(prop, case, rec, out):
     mon.update({k: bool(v) for k, v in rec['py'].items()})
     if rec['out'] == 'ok':
         ids = [e[0] for e in rec['obsData']]
-        mon['oneEntryPerTask'] = sorted(ids) == sorted(t['id'] for t in rec['dhtmlx'] if True) and len(ids) == len(set(ids))
+        mon['oneEntryPerTask'] = sorted(ids) == sorted(rec['dhtmlx'][u]['id'] for u in rec['members']) and len(ids) == len(set(ids))
         lid = [l[0] for l in rec['obsLinks']]
         mon['linksNumbered'] = lid == list(range(1, len(lid) + 1))
         mon['progressInRange'] = all(0 <= Fraction(e[6]) <= 1 for e in rec['obsData'])
